@@ -18,6 +18,7 @@ import GoblVerif.Generated.CalcFacts
 import GoblVerif.Proofs.CalcCurrency
 import GoblVerif.Proofs.CalcTax
 import GoblVerif.Proofs.CalcReadd
+import GoblVerif.Proofs.BillCalcSrc
 
 namespace GoblVerif.Props.C03
 open GoblVerif GoblVerif.Calc
@@ -285,6 +286,65 @@ example :
       some (some ⟨3002, 2⟩, some ⟨2802, 2⟩) := by decide
 
 /-! ## pinned source shapes (regenerated facts; tools/pin_calc_expect.py) -/
+
+/-! ## the line-level statement over the code itself (B22)
+
+`BillCalcSrc.calculateLine` is the Go function `calculateLine` of /repo/bill/line_calculate.go
+translated on every run (Generated/BillCalcSrc.lean); Props/C01 (`Src.src_calculateLine`,
+from Proofs/BillCalcSrc `calculateLine_eq`) proves it equal to `Calc.calcLine` for lines without
+substituted sub-lines.  With that, `line_total_readds` is a statement about the translated code. -/
+namespace Src
+open GoblVerif.Generated GoblVerif.CalcSrc GoblVerif.Proofs.BillCalcSrc
+
+/-- **line_total_readds, about the code**: under the currency rule, for a line with an item and
+without substituted sub-lines whose fixed discount / charge amounts (and charge rates) come at the
+currency's precision, what the regenerated `calculateLine` leaves re-adds exactly: sum, total and
+every discount / charge amount have exactly the currency's number of decimals and
+total = sum − discounts + charges as integers. -/
+theorem line_total_readds_source (sub : String → Nat) (l l' : BillCalcSrc.Line) (cur : String) (rates : List XRate)
+    (hr : ∀ r ∈ rates, r.toSub = sub r.to) (hsub : l.Substituted = []) (hi : l.Item ≠ none)
+    (hgd : ∀ d ∈ l.Discounts, adjGuard (sub cur) (toAdj d) = true) (hgc : ∀ d ∈ l.Charges, adjGuard (sub cur) d = true)
+    (h : BillCalcSrc.calculateLine exactOps sub l cur rates "currency" = .ok l')
+    (s t : Amount) (hs : l'.Sum = some s) (ht : l'.Total = some t) :
+    s.exp = sub cur ∧ t.exp = sub cur ∧ (∀ d ∈ l'.Discounts, d.Amount.exp = sub cur) ∧
+    (∀ d ∈ l'.Charges, d.amount.exp = sub cur) ∧
+    t.value = s.value - (l'.Discounts.map (·.Amount.value)).sum + (l'.Charges.map (·.amount.value)).sum := by
+  have hm : calcLine exactOps cur (sub cur) rates .currency (toLine (toItem sub cur) l) = .ok (toLine (toItem sub cur) l') := by
+    have := calculateLine_eq exactOps sub l cur rates "currency" hr hsub
+    rw [h] at this
+    exact this.symm
+  have hg : lineGuard (sub cur) (toLine (toItem sub cur) l) := by
+    refine ⟨?_, hgc⟩
+    intro d hd
+    obtain ⟨x, hx, rfl⟩ := List.mem_map.mp hd
+    exact ⟨rfl, hgd x hx⟩
+  have hi' : (toLine (toItem sub cur) l).item ≠ none := by
+    cases hI : l.Item with
+    | none => exact absurd hI hi
+    | some it => simp [toLine, hI]
+  obtain ⟨h1, h2, h3, h4, h5⟩ := line_total_readds cur (sub cur) rates _ _ hg hm s t hs ht hi'
+  refine ⟨h1, h2, ?_, h4, ?_⟩
+  · intro d hd
+    exact h3 (toAdj d) (List.mem_map.mpr ⟨d, hd, rfl⟩)
+  · rw [h5]
+    simp [toLine, toAdj, List.map_map, Function.comp_def]
+
+/-- the hypotheses are satisfiable and the code computes: 3 × 33.335 EUR = 100.01 (rounded once to
+    the cent), − 10 % (10.00) + a fixed charge of 0.50 = 90.51 -/
+def readdLine : BillCalcSrc.Line :=
+  { Quantity := ⟨3, 0⟩, Item := some ⟨"", some ⟨33335, 3⟩, []⟩, Breakdown := [], Sum := none,
+    Discounts := [⟨none, some ⟨⟨10, 2⟩⟩, ⟨0, 0⟩⟩], Charges := [⟨none, none, ⟨50, 2⟩, none, none⟩], Taxes := [],
+    Total := none, Substituted := [] }
+
+example :
+    readdLine.Substituted = [] ∧ readdLine.Item ≠ none ∧ (∀ d ∈ readdLine.Discounts, adjGuard 2 (toAdj d) = true) ∧
+    (∀ d ∈ readdLine.Charges, adjGuard 2 d = true) ∧
+    ((BillCalcSrc.calculateLine exactOps (fun _ => 2) readdLine "EUR" [] "currency").toOption.map
+      (fun r => (r.Sum, r.Discounts.map (·.Amount), r.Charges.map (·.amount), r.Total))) =
+      some (some ⟨10001, 2⟩, [⟨1000, 2⟩], [⟨50, 2⟩], some ⟨9051, 2⟩) := by
+  decide +kernel
+
+end Src
 
 namespace ExpectCalc
 open GoblVerif.Generated.Calc
